@@ -207,7 +207,7 @@ PROPS = {
     'C06': dict(
         title='Monoidal normal form is a sound, idempotent, canonical representative',
         level='proof',
-        vc=['rewriting.interchange', 'rewriting.normalize'],
+        vc=['rewriting.interchange', 'rewriting.normalize', 'rewriting.normal_form'],
         sym=[], rtc='C06',
         level_text='Proof (per call, all diagrams, both directions): the real body of rewriting.normalize (sweep loop, inner '
                    'loop, guard, yield) is verified with loop invariants against the call-site contract of interchange: every '
@@ -215,11 +215,17 @@ PROPS = {
                    'flag passed and the guard evaluated select a legal move: InterchangerError / IndexError cannot escape), it is '
                    'well-typed with the input\'s dom, cod and number of boxes, and when the generator is exhausted no adjacent '
                    'pair satisfies the rewrite condition (fixed point, hence idempotence of normal_form). interchange itself is '
-                   're-verified (C05). Termination on connected diagrams, canonicity across the interchanger class, '
-                   'NotImplementedError only for disconnected diagrams, foliation / flatten / depth: bounded stand-in (whole-'
-                   'history properties: confluence and termination of the rewriting system, arXiv:1804.07832).',
+                   're-verified (C05). The real body of rewriting.normal_form (cycle detection) is verified over an arbitrary '
+                   'finite trace of the normaliser, diagrams abstracted to their identity under ==, the cache to the prefix '
+                   'seen so far: it returns only if no diagram was yielded twice, and then the last one (the input if none); it '
+                   'raises only NotImplementedError and only at a diagram it has seen before, i.e. at the first repetition: on '
+                   'an eventually periodic trace it reports instead of looping. Termination of normalize on connected '
+                   'diagrams, canonicity across the interchanger class, NotImplementedError only for disconnected diagrams, '
+                   'foliation / flatten / depth: bounded stand-in (whole-history properties: confluence and termination of '
+                   'the rewriting system, arXiv:1804.07832).',
         level_note='Trusted: pyvc + solvers; the abstract call-site contract of interchange (fresh well-formed result related to '
-                   'the argument by the discharged functional spec); L-ichg. Bounded: all diagrams with <= 3 (thorough 4) boxes '
+                   'the argument by the discharged functional spec); L-ichg; normal_form: == on diagrams is an equivalence '
+                   'compatible with hash (C03), set semantics of `in` / `add` (T2). Bounded: all diagrams with <= 3 (thorough 4) boxes '
                    'plus connected frames around ties, interchanger class by BFS under the real interchange.',
         technique='VC generation from the real AST with loop invariants and yield obligations (z3/cvc5); bounded run-time '
                   'contracts for termination and canonicity'),
